@@ -7,7 +7,7 @@ import json
 from vt import common
 
 STATE_STEPS = ["check", "get", "set", "unset", "push", "pop"]
-VM_STEPS = {"boot": "boot", "shutdown": "shutdown"}
+VM_STEPS = {"boot": "boot", "shutdown": "shutdown", "download": "download", "upload": "upload", "control": "run"}
 # object-level steps built on a state step with fixed parameters: step -> (state step it reuses, state it addresses)
 ROOT_STEPS = {"collect": ("get", "root"), "create": ("set", "root"), "clean": ("unset", "root")}
 DEFAULT_VARIANT = {"vm1": "CentOS", "vm2": "Win10", "vm3": "Ubuntu"}
